@@ -974,3 +974,111 @@ def tcp_init(ctx, incoming):
         ctx.prove(f.get(TC('state')) == DISCONNECTED and f.get(TC('socket')) is None and f.get(TC('fileno')) is None and not subs,
                   'C14:init.outgoing-connection-starts-DISCONNECTED-unsubscribed')
     ctx.prove(f.get(TC('onDisconnected')) is None and f.get(TC('onMessageReceived')) is None, 'C14:init.no-callbacks-until-set')
+
+
+# ------------------------------------------------------------------------------------------------ the event handler as a state machine (C14)
+@unit(name='tcp.processConnection', relpath=TMOD, qual=['TcpConnection.__processConnection'], props=['C14', 'C13'],
+      cases=[dict(event=e, state=s) for e in (1, 2, 3, 4, 5, 6, 7) for s in (CONNECTING, CONNECTED)],
+      doc='O14.8 (event handler, callee contracts as summaries): an event for a descriptor that is not the connection\'s current one only unsubscribes '
+          'that descriptor; an ERROR event or a pending socket error disconnects without reporting a connection; a CONNECTING connection becomes '
+          'CONNECTED on the first READ/WRITE event without socket error, reporting onConnected exactly once and refreshing the read timer, and '
+          'handles no data in that event; a CONNECTED connection flushes on WRITE and re-subscribes for READ|ERROR plus WRITE exactly while bytes '
+          'remain to be sent, reads on READ; nothing is done after a disconnect; no exception escapes the event loop',
+      trusted=['T-SOCKET'])
+def tcp_process_connection(ctx, event, state):
+    conn, rbuf, wbuf, st, sock = mk_conn(ctx, state)
+    c0 = ctx.cell(conn).fields
+    fileno = c0[TC('fileno')].val
+    stale = FreshBool('staleDescriptor')
+    descr = FreshInt('descr')
+    ctx.assume(Iff(stale, descr != fileno))
+    subs, ev = [], []
+    soerr = FreshInt('soError')
+
+    def timeout_s(I, s, a, k):
+        ev.append('timeout-check')
+        if ctx.decide(FreshBool('readTimeoutExpired'), 'read-timeout-expired'):
+            disconnect_summary(I, s, [], {})
+
+    def trysend_s(I, s, a, k):
+        ev.append('flush')
+        if ctx.decide(FreshBool('flushKillsConnection'), 'flush-kills-connection'):
+            disconnect_summary(I, s, [], {})
+            return
+        c = ctx.cell(s)
+        w_ = fresh_win(ctx, 'wbufAfterFlush')
+        ctx.ghost['wbuf_after_flush'] = [w_]
+        ctx.setcell(s, c.with_field(TC('writeBuffer'), w_))
+
+    def tryread_s(I, s, a, k):
+        ev.append('read')
+        if ctx.decide(FreshBool('readKillsConnection'), 'read-kills-connection'):
+            disconnect_summary(I, s, [], {})
+
+    def parse_s(I, s, a, k):
+        ev.append('parse')
+        return None
+    reg = dict(REG)
+    reg.update({'TcpConnection.__processConnectionTimeout': timeout_s, 'TcpConnection.__trySendBuffer': trysend_s, 'TcpConnection.__tryReadBuffer': tryread_s,
+                'TcpConnection.__processParseMessage': parse_s, 'Socket.getsockopt': lambda I, s, a, k: soerr,
+                'Poller.subscribe': lambda I, s, a, k: subs.append(tuple(a)), 'Poller.unsubscribe': lambda I, s, a, k: ctx.glist('unsub').append(a[0])})
+    mod = source.load(TMOD)
+    fn, ci = mod.find('TcpConnection.__processConnection')
+    I = Interp(ctx, registry=reg, externals=EXT, hooks={'call:cb': cb_hook})
+    I.cur_mod = mod
+    try:
+        I.call_funcdef(fn, mod, 'TcpConnection', conn, [descr, event], {}, None, 'TcpConnection.__processConnection')
+        outcome = 'ok'
+    except PyExc as e:
+        outcome = e.typ
+    ctx.prove(outcome == 'ok', 'C14+C13:O14.8.no-exception-escapes-the-event-loop', info=outcome)
+    if outcome != 'ok':
+        return
+    f = ctx.cell(conn).fields
+    st1 = f[TC('state')]
+    disc = ctx.glist('disconnects')
+    connected_cb = [a for t, a in ctx.glist('cb') if t == 'cb:onConnected']
+    if ctx.decide(stale, 'stale-descriptor'):
+        ctx.prove(ctx.glist('unsub') == [descr] and not disc and not ev and not subs and not connected_cb and st1 == state,
+                  'C14+C13:O14.8.event-for-a-stale-descriptor-only-unsubscribes-it', info=repr((ctx.glist('unsub'), ev)))
+        return
+    if event & 4:
+        ctx.prove(len(disc) == 1 and not connected_cb and not ev, 'C14:O14.8.error-event-disconnects-and-does-nothing-else', info=repr(ev))
+        return
+    ctx.prove(ev[:1] == ['timeout-check'], 'C14:O14.8.read-timeout-checked-first', info=repr(ev))
+    if disc and len(ev) == 1:
+        ctx.prove(not connected_cb and not subs, 'C14:O14.8.nothing-after-a-timeout-disconnect')
+        return
+    has_cb = Not(c0[TC('onConnected')].isnone)
+    if ctx.decide(soerr != 0, 'socket-error-pending'):
+        ctx.prove(len(disc) == 1 and not connected_cb and ev == ['timeout-check'], 'C14:O14.8.pending-socket-error-disconnects-without-reporting-a-connection', info=repr(ev))
+        return
+    if state == CONNECTING:
+        ctx.prove(Implies(has_cb, len(connected_cb) == 1) if len(connected_cb) != 1 else True, 'C14:O14.8.connection-reported-exactly-once')
+        ctx.prove(st1 == CONNECTED, 'C14:O14.8.connecting-becomes-connected-on-the-first-clean-event')
+        ctx.prove(f[TC('lastReadTime')] is not c0[TC('lastReadTime')], 'C14:O14.8.read-timer-starts-when-connected')
+        ctx.prove(ev == ['timeout-check'], 'C14+C13:O14.8.no-data-handled-in-the-connecting-event', info=repr(ev))
+        return
+    ctx.prove(not connected_cb, 'C14:O14.8.established-connection-not-reported-again')
+    if event & 2:
+        ctx.prove('flush' in ev, 'C13+C14:O14.8.write-event-flushes')
+        if disc and 'read' not in ev:
+            # the flush found the connection dead: nothing further happens in this event
+            ctx.prove(not subs and 'parse' not in ev and ev[-1] == 'flush', 'C14+C13:O14.8.nothing-after-a-disconnect', info=repr(ev))
+            return
+        ctx.prove(len(subs) == 1, 'C14:O14.8.resubscribed-once-after-a-flush')
+        if len(subs) == 1:
+            d, h, m = subs[0]
+            pending = to_z3(f[TC('writeBuffer')].n) > 0 if 'read' not in ev else None
+            ctx.prove(Eq(d, fileno), 'C14:O14.8.resubscribed-descriptor-is-the-connection')
+            wb_after_flush = (ctx.glist('wbuf_after_flush') or [None])[-1]
+            if wb_after_flush is not None:
+                ctx.prove(Eq(m, Ite(to_z3(wb_after_flush.n) > 0, 7, 5)), 'C14+C13:O14.8.subscribed-for-read-error-and-write-exactly-while-bytes-remain', info=repr(m))
+    else:
+        ctx.prove('flush' not in ev and not subs, 'C14:O14.8.no-flush-without-a-write-event')
+    if event & 1:
+        ctx.prove('read' in ev, 'C13+C14:O14.8.read-event-reads')
+        if disc:
+            ctx.prove(ev[-1] == 'read', 'C13+C14:O14.8.nothing-parsed-after-a-disconnect', info=repr(ev))
+    else:
+        ctx.prove('read' not in ev and 'parse' not in ev, 'C13:O14.8.no-read-without-a-read-event', info=repr(ev))
